@@ -206,7 +206,8 @@ def op_negative_weight(rng, m):
 
 def op_text_after_mixture(rng, m):
     m.mixture = ("abs", 5000.0)
-    return "molecule", m.to_text() + rng.choice(["CC", "C", "{[$][$]C[$][$]}", "O"]), "construct"
+    # ... also text that itself ends in a complete mixture specifier (a Molecule holds ONE molecule: everything behind the first specifier is text after it)
+    return "molecule", m.to_text() + rng.choice(["CC", "C", "{[$][$]C[$][$]}", "O", "CCC.|50%|", ".|50%|", "CC.|700|", "C.|150%|", "O.|5e3|"]), "construct"
 
 
 def op_percentage_range(rng, m):
